@@ -37,7 +37,8 @@ Mid == 10 PgB == 11  CB == 12  PgC == 13 CC == 14  Info == 15  Img == 16  Mask =
 
 \* tree: "A" root->[A] | "AB" root->[A,B] | "AmB" root->[A, mid->[B]] | "mABC" root->[mid->[A,B], C]
 \* cont: "ref" | "arr1" | "arr2" | "dup" | "refarr" | "missing"        (page A; other pages: "ref")
-\* res:  "none" | "root" | "rootref" | "page" | "pageref" | "both"
+\* res:  "none" | "root" | "rootref" | "rootcat" (inline on the root, its XObject category behind a reference)
+\*       | "page" | "pageref" | "both"
 \* ann:  0 | 1 | 2  annotation references on page A;   img: image + mask streams under the catalog
 \* bm:   number of pending bookmarks (on page A)
 St(tree, cont, res, ann, img, bm) == [tree |-> tree, cont |-> cont, res |-> res, ann |-> ann, img |-> img, bm |-> bm]
@@ -52,6 +53,7 @@ StartDoc(s) ==
                        ELSE IF s.tree = "mABC" /\ p \in {PgA, PgB} THEN Mid ELSE Root
         rootRes == CASE s.res \in {"root", "both"} -> ("Resources" :> FontRes("F1"))
                      [] s.res = "rootref" -> ("Resources" :> Ref(ResObj))
+                     [] s.res = "rootcat" -> ("Resources" :> DictO([Font |-> DictO(("F1" :> Ref(Font))), XObject |-> Ref(ResObj)]))
                      [] OTHER -> <<>>
         pageRes == CASE s.res = "page" -> ("Resources" :> FontRes("F1"))
                      [] s.res = "both" -> ("Resources" :> FontRes("F2"))
@@ -76,7 +78,7 @@ StartDoc(s) ==
                \cup (IF s.cont = "arr2" THEN {C2} ELSE {})
                \cup (IF s.cont = "refarr" THEN {CArr} ELSE {})
                \cup (IF s.res # "none" THEN {Font} ELSE {})
-               \cup (IF s.res \in {"rootref", "pageref"} THEN {ResObj} ELSE {})
+               \cup (IF s.res \in {"rootref", "pageref", "rootcat"} THEN {ResObj} ELSE {})
                \cup (IF s.ann > 0 THEN {Annot} ELSE {})
                \cup (IF hasMid THEN {Mid} ELSE {})
                \cup (IF hasB THEN {PgB, CB} ELSE {})
@@ -96,7 +98,7 @@ StartDoc(s) ==
               [] id = CC    -> StreamO(<<>>, <<67>>, FALSE)
               [] id = CArr  -> ArrO(<<Ref(C1)>>)
               [] id = Font  -> DictO([Type |-> NameO("Font")])
-              [] id = ResObj -> FontRes("F1")
+              [] id = ResObj -> IF s.res = "rootcat" THEN DictO(("Im0" :> Ref(Font))) ELSE FontRes("F1")
               [] id = Annot -> DictO([Type |-> NameO("Annot")])
               [] id = Info  -> DictO([Title |-> StrO("T")])
               [] id = Img   -> StreamO([Type |-> NameO("XObject"), SMask |-> Ref(Mask)], <<1, 2>>, FALSE)
@@ -126,13 +128,13 @@ StartsQuick ==
 \* focused families: one aspect varied on a small tree
 StartsContent  == {St("A", c, "root", 0, FALSE, 0) : c \in {"ref", "arr1", "arr2", "dup", "refarr", "missing"}}
 StartsContent2 == {St("AmB", c, "rootref", 1, FALSE, 0) : c \in {"ref", "arr1", "arr2", "dup", "refarr", "missing"}}
-StartsRes      == {St("AmB", "ref", r, 0, FALSE, 0) : r \in {"none", "root", "rootref", "page", "pageref", "both"}}
+StartsRes      == {St("AmB", "ref", r, 0, FALSE, 0) : r \in {"none", "root", "rootref", "rootcat", "page", "pageref", "both"}}
 StartsObj1     == {St("AB", "dup", "rootref", 2, TRUE, 1)}
 StartsObj      == {St("AB", "dup", "rootref", 2, TRUE, 1), St("A", "arr2", "none", 1, FALSE, 1)}
 
 StartsThorough ==
     {St(t, c, r, 1, FALSE, 0) : t \in {"AB", "AmB"}, c \in {"ref", "arr1", "arr2", "dup", "refarr", "missing"},
-                                r \in {"none", "root", "rootref", "page", "pageref", "both"}}
+                                r \in {"none", "root", "rootref", "rootcat", "page", "pageref", "both"}}
     \cup {St("mABC", c, "rootref", 2, TRUE, 1) : c \in {"ref", "dup", "refarr"}}
     \cup {St("A", c, "root", 2, TRUE, 1) : c \in {"arr1", "missing"}}
 
